@@ -103,6 +103,48 @@ func init() {
 			}
 		}
 		sb.WriteString("\ndef factoryStartOrder : List String := " + LeanStrList(startCalls) + "\n")
+		// the database-config handler: GetShardAssign passes the repository error on as it is; only
+		// ErrNotExist leads to creation; create / grow place shards on what storage.GetLiveNodes returns,
+		// and GetLiveNodes lists the registration keys (it does not read the in-memory LiveNodes)
+		for _, fn := range []string{"GetShardAssign", "shardAssignment", "createShardAssignment", "modifyShardAssignment"} {
+			fd := FindFunc(sm, "stateManager", fn)
+			if fd == nil {
+				return "", fmt.Errorf("stateManager.%s not found", fn)
+			}
+			sb.WriteString("\ndef " + strings.ToLower(fn[:1]) + fn[1:] + "HandlerShape : List String := " + LeanStrList(c18StmtShape(fd.Body.List)) + "\n")
+		}
+		gl := FindFunc(sc, "storageCluster", "GetLiveNodes")
+		if gl == nil {
+			return "", fmt.Errorf("storageCluster.GetLiveNodes not found")
+		}
+		sb.WriteString("\ndef getLiveNodesShape : List String := " + LeanStrList(c18StmtShape(gl.Body.List)) + "\n")
+		sb.WriteString("\ndef getLiveNodesCalls : List String := " + LeanStrList(CallSeq(gl)) + "\n")
+		// which event type each watch callback of the master's state machines emits (create callback first,
+		// delete callback second): node registration -> NodeStartup / NodeFailure, database config ->
+		// DatabaseConfigChanged / DatabaseConfigDeletion, shard assignment -> ShardAssignmentChanged / ...Deletion
+		var evTypes []string
+		for _, fn := range []string{"createStorageNodeStateMachine", "createDatabaseConfigStateMachine", "createShardAssignmentStateMachine"} {
+			fd := FindFunc(smf, "StateMachineFactory", fn)
+			if fd == nil {
+				return "", fmt.Errorf("StateMachineFactory.%s not found", fn)
+			}
+			var ts []string
+			ast.Inspect(fd, func(n ast.Node) bool {
+				switch x := n.(type) {
+				case *ast.KeyValueExpr:
+					if id, ok := x.Key.(*ast.Ident); ok && id.Name == "Type" {
+						ts = append(ts, types.ExprString(x.Value))
+					}
+				case *ast.CallExpr:
+					if sel, ok := x.Fun.(*ast.SelectorExpr); ok && sel.Sel.Name == "NewStateMachine" && len(x.Args) >= 4 {
+						ts = append(ts, "watch "+types.ExprString(x.Args[3]))
+					}
+				}
+				return true
+			})
+			evTypes = append(evTypes, fn+": "+strings.Join(ts, ", "))
+		}
+		sb.WriteString("\ndef factoryEventTypes : List String := " + LeanStrList(evTypes) + "\n")
 		capv := int64(-1)
 		ast.Inspect(FindFunc(sm, "", "NewStateManager"), func(n ast.Node) bool {
 			if ce, ok := n.(*ast.CallExpr); ok {
@@ -222,6 +264,26 @@ func c18StmtShape(stmts []ast.Stmt) []string {
 				out = append(out, "}")
 			case *ast.BlockStmt:
 				walk(x.List)
+			case *ast.SwitchStmt:
+				tag := ""
+				if x.Tag != nil {
+					tag = " " + types.ExprString(x.Tag)
+				}
+				out = append(out, "switch"+tag, "{")
+				for _, cc := range x.Body.List {
+					cl := cc.(*ast.CaseClause)
+					if cl.List == nil {
+						out = append(out, "default")
+					} else {
+						var es []string
+						for _, e := range cl.List {
+							es = append(es, types.ExprString(e))
+						}
+						out = append(out, "case "+strings.Join(es, ","))
+					}
+					walk(cl.Body)
+				}
+				out = append(out, "}")
 			default:
 				out = append(out, simple(s))
 			}
